@@ -7,7 +7,7 @@ THOROUGH_BUDGET_S = 600
 TOL = {"mean": 12.0, "var": 3e-3, "skew": 4e-3, "kurt": 8e-3}
 RULE = (
     "seeded histories: a stream of n<=400 samples x <=6 channels (families: constant, 1-bit, small ints, gaussian with "
-    "|mean|/sigma up to 1e3, heavy-tailed, one constant channel among varying ones, a level step of several sigma at a random sample) is pushed into ChannelStats (a) whole, "
+    "|mean|/sigma up to 1e3, heavy-tailed, one constant channel among varying ones, a level step of several sigma at a random sample, skewed data at amplitudes 3e-6..1e5) is pushed into ChannelStats (a) whole, "
     "(b) in a generated composition of n into chunks (all-ones, one huge + ones, geometric, random), (c) split at k between "
     "two accumulators (each with its own chunking) that are added in either order; count/min/max must be identical across "
     "all and equal to the truth, mean/var/skew/kurtosis within stated tolerances of the two-pass float64 values, constant "
@@ -15,7 +15,7 @@ RULE = (
     "Non-trivial = n >= 2 and a partition with >= 2 chunks or a merge; distinct = distinct event digests among those."
 )
 PROBES = ["single-sample-chunks", "merge-k=1", "merge-k=n-1", "sign-change-of-count-difference", "1-bit-data",
-          "constant-channel", "mode:basic", "mode:full", "order:ba", "huge-mean"]
+          "constant-channel", "mode:basic", "mode:full", "order:ba", "huge-mean", "tiny-amplitude"]
 COMPONENTS = {
     "real": ["sigpyproc.core.stats.ChannelStats.push_data/__add__ and its derived properties",
              "kernels.compute_online_moments(_basic)/add_online_moments (compiled, 1 thread)"],
